@@ -238,9 +238,9 @@ def audit_props(files):
         os.unlink(ap)
     res = {}
     # outputs: "'name' depends on axioms: [a, b]"  or "'name' does not depend on any axioms"
-    for m in re.finditer(r"'([^']+)' depends on axioms: \[([^\]]*)\]", out, re.S):
+    for m in re.finditer(r"'(\S+)' depends on axioms: \[([^\]]*)\]", out, re.S):
         res[m.group(1)] = [x.strip() for x in m.group(2).replace("\n", " ").split(",") if x.strip()]
-    for m in re.finditer(r"'([^']+)' does not depend on any axioms", out):
+    for m in re.finditer(r"'(\S+)' does not depend on any axioms", out):
         res[m.group(1)] = []
     return [(t, res.get(t)) for t in thms], out
 
@@ -278,6 +278,18 @@ def load_known():
 def hexd(x):
     import struct
     return "%016x" % struct.unpack("<Q", struct.pack("<d", x))[0]
+
+
+_HEX16 = re.compile(r"(?<![0-9a-f])([0-9a-f]{16})(?![0-9a-f])")
+
+
+def canon_nan(line):
+    """NaN payload / sign is not compared (Lean's Float.toBits canonicalises NaNs): every NaN bit
+    pattern in a line is replaced by the canonical quiet NaN"""
+    def f(m):
+        v = int(m.group(1), 16)
+        return "7ff8000000000000" if (v & 0x7fffffffffffffff) > 0x7ff0000000000000 else m.group(1)
+    return _HEX16.sub(f, line)
 
 
 def unhex(s):
